@@ -366,9 +366,11 @@ def _ares(r):
 
 
 def coq_obs(case, obs):
+    # explicit types: a case file may consist of a single case (replay, shrinking)
     if "harness_error" in obs:
-        return P(L([]), L([]))
-    return P(L(_ares(r) for r in obs["res"]), L(B(b) for b in obs["bools"]))
+        return P("(@nil ares)", "(@nil bool)")
+    bools = L(B(b) for b in obs["bools"]) if obs["bools"] else "(@nil bool)"
+    return P(L(_ares(r) for r in obs["res"]), bools)
 
 
 # ---------------------------------------------------------------------------------------------
